@@ -10,7 +10,7 @@ pub fn prop() -> Prop {
     Prop {
         id: "C02",
         level: "model_checking",
-        rule: "values: every string of length <=2 (thorough <=3, 4 over a 16-character core and 5 over an 8-character core) over a 49-character alphabet (all C0 controls, DEL, quote, backslash, slash, U+0080, U+00FF, U+2028/9, U+D7FF, U+E000, U+FFFD, U+FFFF, U+10000, U+1F603, U+10FFFF, 'a') as a value, as a member name and inside an array; 26 boundary numbers; 1000 (thorough 15000) doubles needing 16-17 significant digits given in exponent form (printed plain, re-read by the fixpoint run); 29 computed numbers (results of arithmetic incl. overflow, negative zero, integral floats, exponent spellings); ~90 containers of depth <=3 with 0/1/2 members and 18 array/object chains of depth 8..64; strings of 15..4097 characters with a special character first or last (as value, member name, element) and arrays/objects of 15..1025 members; strings, arrays and objects of 65535..65537 characters / members; a position grid (13 atoms of all types incl. exponent forms and a 20-digit integer at every position - only/first/last/middle element or member - of every nesting shape of depth <=3 (thorough 4), members named by each of 10 names: empty, literal-like, number-like, with blank, quote, line feed, non-ASCII) as the stream `value atom value`; x 3 styles x utf8 on/off x 4 row separators; each case = 2 runs (output fed back); non-trivial = a character outside ' '..'~', a number that is not a small integer, or a non-empty container; distinct by construction; 4 inputs x 10 selection sets (rows built by jawk from selections, incl. selections that share a name, where every printed object must still have distinct member names)",
+        rule: "values: every string of length <=2 (thorough <=3, 4 over a 16-character core and 5 over an 8-character core) over a 49-character alphabet (all C0 controls, DEL, quote, backslash, slash, U+0080, U+00FF, U+2028/9, U+D7FF, U+E000, U+FFFD, U+FFFF, U+10000, U+1F603, U+10FFFF, 'a') as a value, as a member name and inside an array; 26 boundary numbers; 1000 (thorough 15000) doubles needing 16-17 significant digits given in exponent form (printed plain, re-read by the fixpoint run); 33 computed numbers (results of arithmetic incl. overflow, negative zero, integral floats, exponent spellings); ~90 containers of depth <=3 with 0/1/2 members and 18 array/object chains of depth 8..64; strings of 15..4097 characters with a special character first or last (as value, member name, element) and arrays/objects of 15..1025 members; strings, arrays and objects of 65535..65537 characters / members; a position grid (13 atoms of all types incl. exponent forms and a 20-digit integer at every position - only/first/last/middle element or member - of every nesting shape of depth <=3 (thorough 4), members named by each of 10 names: empty, literal-like, number-like, with blank, quote, line feed, non-ASCII) as the stream `value atom value`; x 3 styles x utf8 on/off x 4 row separators; each case = 2 runs (output fed back); non-trivial = a character outside ' '..'~', a number that is not a small integer, or a non-empty container; distinct by construction; 4 inputs x 10 selection sets (rows built by jawk from selections, incl. selections that share a name, where every printed object must still have distinct member names)",
         explanation: "stdout is framed by the row separator and each row is read by the independent strict RFC 8259 reader and compared with the reference value; style relations (consise has no insignificant whitespace, one-line no line break, pretty = one element/member per line with indentation c*depth, all three equal after deleting insignificant whitespace) and the byte-for-byte fixpoint of a second run are checked on every case",
         assumptions: COMMON_ASSUMPTIONS.to_vec(),
         guards: vec!["sixty-five-thousand", "seventeen-digit-double-in-exponent-form", "position-grid", "separator-of-minus-signs-touching-the-next-row", "selections-sharing-a-name", "size-thresholds", "control-character", "astral-character", "pretty-nested", "computed-non-finite", "separator-without-newline", "utf8-on"],
@@ -494,7 +494,7 @@ fn run(ctx: &mut Ctx) {
         }
     }
     // ---- computed numbers (results of arithmetic, incl. overflow to non-finite)
-    let computed: [(&str, &str); 29] = [
+    let computed: [(&str, &str); 33] = [
         ("1e200", "(* . .)"),
         ("-1e200", "(* . . .)"),
         ("1e308", "(+ . .)"),
@@ -526,6 +526,11 @@ fn run(ctx: &mut Ctx) {
         ("1e200", "(- (* . .) (* . .))"),
         ("1e200", "(* 0 . .)"),
         ("1e308", "(% (* . 10) 3)"),
+        // overflow in the negative direction first (and then times zero)
+        ("1e200", "(* . -1 .)"),
+        ("1e200", "(* . -1 . 0)"),
+        ("-1e200", "(* . (- 0 .))"),
+        ("1e308", "(- (- 0 .) .)"),
     ];
     for (inp, e) in computed {
         if !ctx.mine() {
